@@ -33,6 +33,17 @@ CHECKS = {
     note=NOTE_COMMON + 'Axioms (Print Assumptions, only in the Flocq/Reals theorems): ClassicalDedekindReals.sig_not_dec, ClassicalDedekindReals.sig_forall_dec, FunctionalExtensionality.functional_extensionality_dep, Classical_Prop.classic - all declared by Coq\'s standard library. serde_json number classification is modelled (Model/Integer.v classify) and validated by the correspondence.',
     technique='Rocq proof (lia over Z, Flocq binary64) + exhaustive boundary sweep / stratified differential correspondence',
     design='§11 C18'),
+ 'C11': dict(
+    text='Machine-checked theorems (Props/C11.v, closed under the global context): toposort_impl (DFS with the early return on a cycle) maps EVERY '
+         'in-range graph - cycles, self-loops, duplicates - to a permutation of its nodes without panic and within fuel S n, and on acyclic '
+         'graphs puts every node after its dependencies; sort_by_indices computes data[indices[i]] for every permutation (cycle-leader '
+         'invariant); hence topsort emits a permutation of the items whenever dependency collection completes. The ordering half is proved '
+         'relative to the collected graph (theorem named _partial); that the collected graph contains every declarative reference outside '
+         'the recorded finding classes is checked on every generated case by the extracted predicate good_C11, not yet proved. Tied to the '
+         'code through the cfg(typeshare_verif) hooks: exhaustive small graphs / permutations, random larger ones, generated item sets.',
+    note=NOTE_COMMON + 'Hooks core::verif_hooks::{toposort_impl,sort_by_indices,topsort}. Dependency collection over the `types` map is not structurally recursive: modelled with fuel; fuel exhaustion corresponds to a real stack overflow (finding recorded under C07).',
+    technique='Rocq proof (DFS stack invariant, cycle-leader invariant, Permutation) + exhaustive/random differential correspondence via hooks',
+    design='§11 C11'),
 }
 NOT_YET = {}
 def main():
